@@ -1509,7 +1509,124 @@ class Normalizer(object):
         return False
 
 
+def materialise_factories(db):
+    """N11.  `name = factory(consts...)` in a class body, where factory is a
+    module-level function (not a known unit) that only defines one nested
+    function and returns it (possibly wrapped in staticmethod/classmethod):
+    the class gets that function as an ordinary method, the closure variables
+    replaced by the constant arguments.  Returns the number of methods made.
+    """
+    known = known_units()[0]
+    made = []
+    for m in db.modules.values():
+        factories = {}
+        for st in m.tree.body:
+            if not isinstance(st, ast.FunctionDef) or st.decorator_list or \
+                    st.name in known.get(m.name, ()):
+                continue
+            body = list(st.body)
+            if body and isinstance(body[0], ast.Expr) and isinstance(
+                    body[0].value, ast.Constant) and isinstance(
+                        body[0].value.value, str):
+                body = body[1:]
+            if len(body) != 2 or not isinstance(body[0], ast.FunctionDef) \
+                    or not isinstance(body[1], ast.Return) or \
+                    body[0].decorator_list:
+                continue
+            inner, ret = body[0], body[1].value
+            wrap = None
+            if isinstance(ret, ast.Call) and isinstance(
+                    ret.func, ast.Name) and ret.func.id in (
+                        'staticmethod', 'classmethod') and \
+                    len(ret.args) == 1 and not ret.keywords:
+                wrap, ret = ret.func.id, ret.args[0]
+            if not (isinstance(ret, ast.Name) and ret.id == inner.name):
+                continue
+            a = st.args
+            if a.kwonlyargs or a.kwarg or a.defaults or a.posonlyargs:
+                continue
+            if contains(inner.body, (ast.Global, ast.Nonlocal)):
+                continue
+            factories[st.name] = (st, inner, wrap)
+        if not factories:
+            continue
+        for cls in [n for n in ast.walk(m.tree) if isinstance(n,
+                                                              ast.ClassDef)]:
+            for i, st in enumerate(cls.body):
+                if not (isinstance(st, ast.Assign) and len(st.targets) == 1
+                        and isinstance(st.targets[0], ast.Name)):
+                    continue
+                v = st.value
+                outer_wrap = None
+                if isinstance(v, ast.Call) and isinstance(
+                        v.func, ast.Name) and v.func.id in (
+                            'staticmethod', 'classmethod') and \
+                        len(v.args) == 1 and not v.keywords:
+                    outer_wrap, v = v.func.id, v.args[0]
+                if not (isinstance(v, ast.Call) and isinstance(
+                        v.func, ast.Name) and v.func.id in factories
+                        and not v.keywords):
+                    continue
+                if any(isinstance(c, ast.stmt) and any(
+                        isinstance(x, ast.Name) and x.id == v.func.id
+                        and isinstance(x.ctx, ast.Store)
+                        for x in ast.walk(c)) for c in cls.body):
+                    continue
+                fdef, inner, wrap = factories[v.func.id]
+                if wrap and outer_wrap:
+                    continue
+                if not all(isinstance(x, ast.Constant) or (
+                        isinstance(x, ast.UnaryOp) and isinstance(
+                            x.operand, ast.Constant)) for x in v.args):
+                    continue
+                params = [x.arg for x in fdef.args.args]
+                if len(v.args) > len(params) and fdef.args.vararg is None \
+                        or len(v.args) < len(params):
+                    continue
+                exprs = dict(zip(params, v.args))
+                if fdef.args.vararg is not None:
+                    exprs[fdef.args.vararg.arg] = ast.Tuple(
+                        elts=list(v.args[len(params):]), ctx=ast.Load())
+                new = copy.deepcopy(inner)
+                # names the nested function binds itself are its own
+                own = set(x.arg for x in ast.walk(new.args)
+                          if isinstance(x, ast.arg))
+                for x in walk_shallow(new.body):
+                    if isinstance(x, ast.Name) and isinstance(
+                            x.ctx, (ast.Store, ast.Del)):
+                        own.add(x.id)
+                if own & set(exprs):
+                    continue
+                sub = Subst({k: e for k, e in exprs.items()}, {})
+                new.body = [sub.visit(b) for b in new.body]
+                new.name = st.targets[0].id
+                w = wrap or outer_wrap
+                new.decorator_list = [ast.Name(id=w, ctx=ast.Load())] \
+                    if w else []
+                ast.copy_location(new, st)
+                for x in ast.walk(new):
+                    if not hasattr(x, 'lineno') and isinstance(
+                            x, (ast.expr, ast.stmt)):
+                        ast.copy_location(x, st)
+                ast.fix_missing_locations(new)
+                cls.body[i] = new
+                made.append('%s:%s.%s' % (m.name, cls.name, new.name))
+    return made
+
+
 def run(db):
-    n = Normalizer(db)
+    made = materialise_factories(db)
+    if made:
+        # index the program with the materialised methods
+        from .srcdb import SrcDB
+        trees = {n: m.tree for n, m in db.modules.items()}
+        db2 = SrcDB(db.repo, trees=trees)
+    else:
+        db2 = db
+    n = Normalizer(db2)
     stats = n.run()
+    stats['factory_methods'] = made
+    if db2 is not db:
+        for name, m in db2.modules.items():
+            db.modules[name].tree = m.tree
     return stats
